@@ -140,6 +140,9 @@ def build_doc(rng, ch, pay):
     if ch == 'legname':
         return gen.text_of(host) + '# Legend:\n' + pay + ' = {fill:red}\na' + pay + ' = {fill:blue}\n'
     if ch == 'legdecl':
+        if rng.random() < 0.4:
+            # the same class declared several times: every declaration goes through the same escaping
+            return gen.text_of(host) + '# Legend:\na = {fill:red}\nb = {' + nb + '}\na = {' + nb + '}\na = {x:' + nb + '}\n'
         return gen.text_of(host) + '# Legend:\na = {' + nb + '}\nb = {x:' + nb + ';' + nb + '}\n'
     return gen.text_of(host) + '# Legend:\na = {fill:red}\n' + pay + '\n' + pay + ' = {' + nb + '}\n'
 
